@@ -5,6 +5,26 @@ ROOT = os.path.dirname(os.path.dirname(os.path.abspath(__file__)))
 
 CHECKS = {
  # id: (engine, category, technique, level text, level note, design_ref)
+ "C05": ("agentsim+faults", "fault_enumeration",
+   "stateful property-based testing with crash-point injection: generated update histories against the real agent + runtime with a recording, fault-injecting NodePersistence; cuts (panic inside store call #n, store error, drop after poll #p / frame #f, clean stop, timeout), restart on the surviving store and comparison with the fold of the acknowledged log",
+   "Each evaluation is one (history, cut) execution including restart: C01/C02-style histories over persistent and transient value/map lanes and stores run through run_agent_with_store with a harness store that logs every call with the global sequence number and can fail inside call #n. After the cut a fresh agent is started on the surviving data, a new remote syncs every lane and every item is read in on_start and by a probe. Oracles: every event frame of a persistent lane was handed to the store before any remote read it; every persistent item restarts as the fold of the applied log (never older than anything a subscriber saw); transient items restart at their defaults. Quick samples cuts (4.6e5 evaluations) and enumerates all cuts for 600 histories; thorough enumerates every store cut x 3 fault modes, every frame cut, stop after every op for 6e4 histories.",
+   "Trusts: the harness store is an ideal store (real stores are C13); cut points are poll boundaries, store calls and frame reads of a single-threaded schedule, not arbitrary instructions.",
+   "DESIGN.md §4 C05"),
+ "C06": ("agentsim+refint", "exploration",
+   "grammar-based program generation + differential testing against a reference interpreter: generated handler programs executed by a real agent (real lifecycle macros) and by a model; block-wise trace comparison; proptest shrinking",
+   "Program tables over Seq/Then/Set/Update/Remove/Clear/Get/Branch/Effect/Suspend/Fail/Stop for on_start, on_stop, control commands, suspended programs and every lifecycle handler of 2 value + 2 map lanes (acyclic by construction) are executed by a real agent under generated command sequences and schedules. The recorded effect trace is parsed into top-level blocks; each block must be allowed (on_start first, on_stop last, spawned programs exactly once, nothing after a fatal failure) and must equal the reference interpreter's depth-first execution (on_event then on_set with the true previous value; map callbacks with the true previous entry) from the model state at the block's start. 6e5 programs quick.",
+   "Trusts: the reference interpreter in harness/c06/src/refint.rs; take/drop, stores, downlink/HTTP/timer handlers and cyclic trigger graphs are not generated.",
+   "DESIGN.md §4 C06"),
+ "C09": ("pure+fuzz", "exploration",
+   "property-based testing: round-trip / fixed-point / differential (chunked vs one-shot) oracles over generated typed values, model values, grammar-rendered and mutated Recon text with exhaustive single cuts and random multi-cuts; libFuzzer target recon_parse for the thorough tier",
+   "52 typed cells (built-ins, containers, derived Form types) through the three printers and back; arbitrary model values must reach a print/parse fixed point after one cycle; parser-produced values must round-trip kind-exactly (structural comparison, not Value::eq); RecognizerDecoder and WithLenRecognizerDecoder fed every single cut, byte-by-byte and random multi-cuts (also inside UTF-8 sequences) must give the one-shot result and consume the same bytes; arbitrary bytes never panic; hangs are detected by a progress rule, not by wall clock. 2.4e5 evaluations quick.",
+   "Trusts: harness structural equality and the tape-driven Recon renderer in vgen::recon_text. Known finding excluded by signature: non-finite floats (1e400 parses to inf, which prints as `inf` = a text).",
+   "DESIGN.md §4 C09"),
+ "C15": ("pure+fuzz", "exploration",
+   "property-based testing: bounded-exhaustive small-value pairs + generated re-formattings / near-miss mutations / invalid texts against the parsed-equality oracle, two hashers, and the real MapBackpressure queue; libFuzzer target compare_hash",
+   "All ordered pairs of Recon texts of values with up to 4 nodes (1.08e5 pairs; 5 nodes / 8e6 pairs thorough) and 3.5e5 generated pairs (other printer, whitespace, separators, escapes vs literal characters, numeric respellings, near-miss structure edits, invalid texts): compare_recon_values(a,b) must equal Value::eq of the parsed values (plain string equality when either is invalid), equal-comparing texts must hash equally under two hashers, reflexive and symmetric; the same pairs pushed as keys through the real MapBackpressure must be merged exactly when equal.",
+   "Trusts: Value::eq as the documented reference. Known findings excluded by signature: comparator false positive for values that differ only in nesting (summed sizes), newline as item separator in attribute bodies not recognised by the hasher, and their MapBackpressure consequences.",
+   "DESIGN.md §4 C15"),
  "C04": ("rawlane+agentsim", "exploration",
    "stateful property-based testing with fault injection: generated op lists (remote envelopes, raw lane output, partial reads/writes, drops, lane failure, stop, timeouts) against the real agent runtime; session-grammar + byte-identity oracle; proptest shrinking",
    "The real agent runtime is driven by a harness agent that speaks the lane protocol directly, so lane output (events, sync events, synced, bad tags, closed channels) is generated, together with link/sync/unlink/command envelopes to existing and missing lanes from several remotes and faults at any op position. Per (remote, lane) the frames must form `linked (event|synced)* unlinked` sessions with every linked/synced caused by a request, lane-not-found answers, closure after lane failure / stop, and byte-identical event bodies (value: non-decreasing emission order; supply: exact FIFO). A second sub-check runs the same grammar on the real SimAgent. 1e5 cases quick.",
